@@ -1,3 +1,5 @@
+from pydantic import field_validator
+
 from ..models import Agent, BaseOptimizationConfig
 
 
@@ -23,3 +25,9 @@ class FishSchoolSearchOptimizationConfig(BaseOptimizationConfig):
     step_volitive_final: float
     min_w: float
     w_scale: float
+
+    @field_validator("w_scale")
+    def correct_w_scale(cls, v):
+        if not v > 0:
+            raise ValueError(f"\"w_scale\" must be a float greater than 0. Got {v}")
+        return v
